@@ -35,15 +35,16 @@ import (
 // and after.
 
 type c12Case struct {
-	Changes []string  `json:"changes"` // one text per change, in order
-	Labels  []string  `json:"labels"`
-	Descs   []string  `json:"descs"` // description token of each change ("" = none)
-	Split   int       `json:"split"` // changes[:Split] go to the first patch file
-	Stdin   bool      `json:"stdin"` // deliver the (single) patch file on stdin
-	Files   []c14File `json:"files"`
-	Other   []c14File `json:"other"` // entries that are not Go files gopatch may touch
-	Args    []string  `json:"args"`
-	AbsArg  []bool    `json:"abs_arg"` // per argument: pass it as an absolute path
+	NoFinalLF bool      `json:"no_final_lf,omitempty"` // patch files are written without their last line feed
+	Changes   []string  `json:"changes"`               // one text per change, in order
+	Labels    []string  `json:"labels"`
+	Descs     []string  `json:"descs"` // description token of each change ("" = none)
+	Split     int       `json:"split"` // changes[:Split] go to the first patch file
+	Stdin     bool      `json:"stdin"` // deliver the (single) patch file on stdin
+	Files     []c14File `json:"files"`
+	Other     []c14File `json:"other"` // entries that are not Go files gopatch may touch
+	Args      []string  `json:"args"`
+	AbsArg    []bool    `json:"abs_arg"` // per argument: pass it as an absolute path
 
 	Verbose     bool `json:"verbose"`
 	SkipGen     bool `json:"skip_generated"`
@@ -51,7 +52,13 @@ type c12Case struct {
 }
 
 func (cs *c12Case) patchFiles() []string {
-	join := func(x []string) string { return strings.Join(x, "") }
+	join := func(x []string) string {
+		if cs.NoFinalLF {
+			// the patch file does not end in a line feed
+			return strings.TrimSuffix(strings.Join(x, ""), "\n")
+		}
+		return strings.Join(x, "")
+	}
 	if cs.Split <= 0 || cs.Split >= len(cs.Changes) {
 		return []string{join(cs.Changes)}
 	}
